@@ -118,6 +118,8 @@ pub enum WOp {
     Sleep(u64),
     /// drop the stream object (abort unless shut down before)
     Drop,
+    /// wait until this side's reader has seen end-of-stream
+    AwaitEof,
 }
 #[derive(Serialize, Deserialize, Clone, Debug, PartialEq)]
 pub enum ROp {
@@ -130,6 +132,8 @@ pub enum ROp {
     Yield(usize),
     Sleep(u64),
     Drop,
+    /// wait (on simulated time) until the open call of stream `tag` has returned
+    AwaitOpened(usize),
 }
 #[derive(Serialize, Deserialize, Clone, Debug, Default)]
 pub struct SidePlan {
@@ -146,6 +150,9 @@ pub struct StreamPlan {
     pub delay: usize,
     /// start only after stream `after` was released by both applications and the system went quiescent
     pub after: Option<usize>,
+    /// start only once one application has let go of stream `after_abort` (no quiescence barrier)
+    #[serde(default)]
+    pub after_abort: Option<usize>,
     /// arbitrary host bytes instead of the tagged host (C07); such streams are matched to
     /// accepted streams by (host, port) equality
     #[serde(default)]
@@ -584,6 +591,16 @@ pub async fn writer_actor(cx: Rc<SideCtx>, ops: Vec<WOp>) {
                 cx.drop_stream();
                 break 'ops;
             }
+            WOp::AwaitEof => {
+                // (polling on simulated time, not on scheduler rounds: an always-runnable task
+                // would keep the clock from advancing and in-flight messages from arriving)
+                for _ in 0..20_000 {
+                    if cx.led.borrow().streams[tag].sides[side].eof.is_some() || cx.stream.borrow().is_none() {
+                        break;
+                    }
+                    tokio::time::sleep(Duration::from_millis(1)).await;
+                }
+            }
         }
     }
     let now = cx.seq.tick();
@@ -678,6 +695,14 @@ pub async fn reader_actor(cx: Rc<SideCtx>, ops: Vec<ROp>) {
                 cx.drop_stream();
                 gone = true;
                 break 'ops;
+            }
+            ROp::AwaitOpened(t) => {
+                for _ in 0..20_000 {
+                    if cx.led.borrow().streams.get(t).is_none_or(|s| s.open_ret.is_some()) || cx.stream.borrow().is_none() {
+                        break;
+                    }
+                    tokio::time::sleep(Duration::from_millis(1)).await;
+                }
             }
         }
     }
@@ -959,6 +984,7 @@ async fn run_async(plan: Plan, sched: Sched, record: bool) -> DuoRun {
         let me = st.opener.min(1);
         let Some(m) = muxes.borrow()[me].clone() else { continue };
         let (led2, seq2, sp2, st2, cancel) = (led.clone(), seq.clone(), sp.clone(), st.clone(), cancels[me].clone());
+        let link2 = link.clone();
         let nstreams = plan.streams.len();
         sim.spawn(&format!("open{tag}"), CLS_OTHER, async move {
             if let Some(a) = st2.after {
@@ -976,6 +1002,26 @@ async fn run_async(plan: Plan, sched: Sched, record: bool) -> DuoRun {
                         if done || cancel.is_cancelled() {
                             break;
                         }
+                    }
+                }
+            }
+            if let Some(a) = st2.after_abort {
+                if a < nstreams && a != tag {
+                    let mut guard = 0;
+                    loop {
+                        // the abort has taken effect at this endpoint (its slot is free): it has
+                        // sent the Reset itself, or consumed the peer's
+                        let gone = {
+                            let l = led2.borrow();
+                            let s = &l.streams[a];
+                            matches!(s.open_ret, Some((_, Err(_))))
+                                || link2.lock().unwrap().evs.iter().any(|e| matches!(&*e.w, Wire::Frame(crate::refcodec::RFrame::Reset { .. })) && ((e.from == me && e.stage == Stage::Sent) || (e.from != me && e.stage == Stage::Consumed)))
+                        };
+                        guard += 1;
+                        if gone || cancel.is_cancelled() || guard > 20_000 {
+                            break;
+                        }
+                        tokio::time::sleep(Duration::from_millis(1)).await;
                     }
                 }
             }
